@@ -289,7 +289,7 @@ def gen_table(rng, kind="f0", **kw):
     elif kind == "extras":
         gen_alphabet(rng, t, upper=False)
         gen_translation_rules(rng, t)
-        gen_extras(rng, t, f6=kw.get("f6", 0.08), hyph=kw.get("hyph"))
+        gen_extras(rng, t, f6=kw.get("f6", 0.0), hyph=kw.get("hyph"))
         gen_passes(rng, t, per_stage=(0, 1), literal_only=False)
     else:
         gen_alphabet(rng, t)
@@ -304,11 +304,12 @@ def gen_table(rng, kind="f0", **kw):
 MATCH_PATTERNS = ["-", "-", "%a", "%[^_]", "%[al]", "%[^_.]", "a|b", "[ab]", "(a|b)c", "%a*", "%[^_]?b", "!a", "%[#]+"]
 
 
-def gen_extras(rng, t, f6=0.08, hyph=None):
+def gen_extras(rng, t, f6=0.0, hyph=None):
     """append rules that store the other kinds of references a table image holds: base characters
     (`linked` lists, case folding), `context` rules with a literal head in upper case (re-filed by
     finalizeTable) next to ordinary rules of the same bucket, grouping and swap names referenced from
-    pass programs (with probability f6: an undefined name AFTER a valid one, DESIGN F6), match
+    pass programs (with probability f6: an undefined name AFTER a valid one, DESIGN F6 - a compile error since the
+    repair 8ca2e784, so 0 by default; the witness tables of C12 still try it), match
     patterns, indicator and emphasis slots, display rules, optionally an included hyphenation
     dictionary `hyph` (file name).  Returns the list of appended Rule objects."""
     out = []
